@@ -1,9 +1,13 @@
+mod alloc;
 mod bfs;
 mod checks;
 mod counters;
 mod ev;
 mod refmodel;
 mod util;
+
+#[global_allocator]
+static GLOBAL: alloc::Counting = alloc::Counting;
 
 fn usage() -> ! {
     eprintln!("usage: vcheck <C01..C20> <quick|thorough>");
@@ -31,6 +35,7 @@ fn main() {
     let ex = "exploration";
     let (level, f): (&str, Box<dyn Fn(&ev::Run)>) = match id {
         "C01" => (mc, Box::new(|r| checks::codec::run(r, Mode::C01))),
+        "C03" => (ex, Box::new(|r| checks::c03::run(r))),
         "C04" => (ex, Box::new(|r| checks::amf0::run_c04(r))),
         "C06" => (mc, Box::new(|r| checks::c06::run(r))),
         "C07" => (mc, Box::new(|r| checks::codec::run(r, Mode::C07))),
